@@ -375,13 +375,13 @@ func c02Run(r *core.Run) {
 	if err != nil {
 		panic(err)
 	}
-	r.Rule = "engine E: every generated regex-style / placeholder / match-all segment (1..3 elements over literals incl. regex-active ones, {x}, {y: /E/}, two-parameter lists; E incl. own groups and alternations) embedded alone / final / non-final / middle / optional, x every candidate path text (all strings <=L over {a,b,1,+,.,-} plus per-element candidate products incl. %-escapes); plus every ordered pair of requests on every tree of one or two routes of a second catalogue (the second answer must be a fresh tree's); oracle: dispatched iff admitted, and SOME alignment of the route to the raw path exists whose once-decoded captures equal the received values; non-trivial = dispatched and (>=2 binds or an escape in the path)"
+	r.Rule = "engine E: every generated regex-style / placeholder / match-all segment (1..3 elements over literals incl. regex-active ones, {x}, {y: /E/}, two-parameter lists; E incl. own groups and alternations) embedded alone / final / non-final / middle / optional, x every candidate path text (all strings <=L (3, thorough 6) over {a,b,1,+,.,-} plus per-element candidate products incl. %-escapes); plus every ordered pair of requests on every tree of one or two routes of a second catalogue (the second answer must be a fresh tree's); oracle: dispatched iff admitted, and SOME alignment of the route to the raw path exists whose once-decoded captures equal the received values; non-trivial = dispatched and (>=2 binds or an escape in the path)"
 	r.Assumptions = []string{"Go regexp trusted, used per expression alone", "parameters left over from abandoned branches are not flagged (documented by Tree.Match); only the matched route's binds are compared", "expressions whose meaning depends on context (anchors, \\b) are outside the alphabet"}
 	maxLen := 3
 	r.SetBudget(70 * time.Second)
 	if r.Thorough() {
-		maxLen = 4
-		r.SetBudget(10 * time.Minute)
+		maxLen = 6
+		r.SetBudget(12 * time.Minute)
 	}
 	segs := c02Segments(r.Thorough())
 	generic := stringsOver([]string{"a", "b", "1", "+", ".", "-"}, maxLen)
@@ -474,7 +474,7 @@ func c02Run(r *core.Run) {
 	maSegAlpha := []string{"a", "", "a%2Fb", "e", "n", "%zz"}
 	maPaths := pathsOver(maSegAlpha, 4, []string{"", "//n/a/e", "n/a/e"})
 	if r.Thorough() {
-		maPaths = pathsOver(maSegAlpha, 5, []string{"", "//n/a/e", "n/a/e"})
+		maPaths = pathsOver(maSegAlpha, 6, []string{"", "//n/a/e", "n/a/e"})
 	}
 	maCat, _ := mkCatalogue(p, maRoutes)
 	r.Bounds["matchall_routes"] = len(maCat)
